@@ -30,7 +30,6 @@ refine(L + "n_evaluations", A + "n_evaluations",
        ensures=[cl("own_counter_is_the_wrapper_count", "result == counted(self)", tags="C03 C20")])
 
 refine(L + "run_metaepoch", A + "run_metaepoch", params={"_": "ref:DemeTree"},
-       requires=[cl("deme_invariant", "LocalInv(self)")],
        modifies=OWN_FRAME + LOCAL_PRIVATE + USER_PROBLEM_FRAME,
        ghost_after={"minimize@0": ["setg(self, '$engine_stop', True)"]},
        loops={"callbacks": dict(
